@@ -40,6 +40,20 @@ type gen struct {
 	trap  bool // the trapping path has been emitted
 }
 
+// function index space of a generated program
+const (
+	fLog    = 0 // import env.log   (i64) -> i64
+	fHgrow  = 1 // import env.hgrow (i32) -> i32: the host grows the guest's memory through api.Memory.Grow
+	fHelper = 2
+	fRun    = 3
+	fSpin   = 4
+	fGrower = 5 // (i32) -> i32: memory.grow in a callee
+	fPeek   = 6 // (i32) -> i64: load in a separate call
+)
+
+// addresses used by the store / grow / store shape, peeked and host-read after every call
+var sgsAddrs = []uint32{0, 64, 4096, 65528}
+
 const (
 	lN = iota // param i32
 	lA        // i64
@@ -65,7 +79,7 @@ func addr(off uint32) []byte { // (p & 0xfff8) as the base of an 8-byte access w
 
 func (g *gen) stmt(depth int) []byte {
 	r := g.rng
-	k := r.Intn(14)
+	k := r.Intn(16)
 	if depth > 0 && (k == 4 || k == 10) {
 		k = 0
 	}
@@ -100,7 +114,7 @@ func (g *gen) stmt(depth int) []byte {
 		return c.Cat(c.LocalGet(lB), addr(off), c.B(0x29), c.MemArg(3, off), c.B(0x85), c.LocalSet(lB))
 	case 6, 7:
 		g.shape["hostcall"]++
-		return c.Cat(c.LocalGet(lA), c.Call(0), c.LocalSet(lA))
+		return c.Cat(c.LocalGet(lA), c.Call(fLog), c.LocalSet(lA))
 	case 8:
 		g.shape["global"]++
 		return c.Cat(c.GlobalGet(0), c.LocalGet(lA), c.B(0x7c), c.GlobalSet(0), c.GlobalGet(0), c.LocalGet(lB), c.B(0x85), c.LocalSet(lB))
@@ -122,16 +136,47 @@ func (g *gen) stmt(depth int) []byte {
 		return c.Cat(c.LocalGet(lA), c.B(0xa7), c.I32Const(1), c.B(0x71), c.B(0x04, 0x40), t, c.B(0x05), e, c.B(0x0b))
 	case 11:
 		g.shape["call"]++
-		return c.Cat(c.LocalGet(lA), c.LocalGet(lB), c.Call(1), c.LocalSet(lA))
+		return c.Cat(c.LocalGet(lA), c.LocalGet(lB), c.Call(fHelper), c.LocalSet(lA))
 	case 12:
 		g.shape["load"]++
 		// narrow accesses: a ^= load32_u ; store8
 		off := uint32(r.Intn(64))
 		return c.Cat(c.LocalGet(lA), addr(0), c.B(0x35), c.MemArg(2, off), c.B(0x85), c.LocalSet(lA),
 			addr(0), c.LocalGet(lB), c.B(0x3c), c.MemArg(0, off+1))
-	default:
+	case 13:
 		return g.trapPath()
+	default:
+		return g.sgsStmt()
 	}
+}
+
+// sgs emits, on one straight-line path:  store[a] = x ; grow(d) ; store[a] = y ; b ^= load[a]
+// where grow is memory.grow, a callee doing memory.grow, or a host function calling api.Memory.Grow.
+// Whether the buffer moves at the grow depends on capacity-from-max and on the allocator: the second store
+// and everything observed later (a separate peek call, host reads, the final digest) must not.
+func sgs(addr uint32, how int, d int32, x, y []byte) []byte {
+	var grow []byte
+	switch how {
+	case 0:
+		grow = c.Cat(c.I32Const(d), c.B(0x40, 0))
+	case 1:
+		grow = c.Cat(c.I32Const(d), c.Call(fGrower))
+	default:
+		grow = c.Cat(c.I32Const(d), c.Call(fHgrow))
+	}
+	a := c.I32Const(int32(addr))
+	return c.Cat(a, x, c.B(0x37), c.MemArg(3, 0),
+		grow, c.B(0xad), c.LocalGet(lB), c.B(0x7c), c.LocalSet(lB),
+		a, y, c.B(0x37), c.MemArg(3, 0),
+		c.LocalGet(lB), a, c.B(0x29), c.MemArg(3, 0), c.B(0x85), c.LocalSet(lB))
+}
+
+var sgsNames = []string{"sgs-direct", "sgs-callee", "sgs-host"}
+
+func (g *gen) sgsStmt() []byte {
+	how := g.rng.Intn(3)
+	g.shape[sgsNames[how]]++
+	return sgs(sgsAddrs[g.rng.Intn(len(sgsAddrs))], how, int32(g.rng.Intn(3)), c.LocalGet(lA), c.Cat(c.LocalGet(lA), g.konst(), c.B(0x7c)))
 }
 
 // if (n == 13) { trap }
@@ -167,20 +212,6 @@ func genProg(rng *c.Rng, id int) *Prog {
 	default:
 		p.HasMax, p.Max = true, 8+uint32(rng.Intn(100)) // above the runtime limit: clamped (F11)
 	}
-	m := &c.Mod{}
-	m.Types = [][]byte{c.FT(c.B(c.I64), c.B(c.I64)), c.FT(c.B(c.I64, c.I64), c.B(c.I64)), c.FT(c.B(c.I32), c.B(c.I64)), c.FT(nil, nil)}
-	m.Imports = [][]byte{c.ImportFunc("env", "log", 0)}
-	m.Funcs = [][]byte{c.U32(1), c.U32(2), c.U32(3)}
-	var mx *uint32
-	if p.HasMax {
-		mx = &p.Max
-	}
-	m.Mems = [][]byte{c.MemLimits(p.Min, mx)}
-	m.Globals = [][]byte{c.Cat(c.B(c.I64, 1), c.I64Const(int64(rng.U64())), c.B(0x0b))}
-	m.Exports = [][]byte{c.Export("run", 0, 2), c.Export("spin", 0, 3), c.Export("mem", 2, 0), c.Export("g0", 3, 0)}
-	// helper(x, y) = ((x op1 y) op2 k) op3 x
-	helper := c.Code(nil, c.LocalGet(0), c.LocalGet(1), c.B(arithOps[rng.Intn(len(arithOps))]), g.konst(), c.B(arithOps[rng.Intn(len(arithOps))]),
-		c.LocalGet(0), c.B(arithOps[rng.Intn(len(arithOps))]))
 	var body []byte
 	body = append(body, c.Cat(c.LocalGet(lN), c.B(0xad), g.konst(), c.B(0x7c), c.LocalSet(lA), g.konst(), c.LocalSet(lB),
 		c.LocalGet(lN), c.I32Const(int32(rng.Intn(4096))*8), c.B(0x6a), c.LocalSet(lP))...)
@@ -193,21 +224,58 @@ func genProg(rng *c.Rng, id int) *Prog {
 		body = append(body, g.stmt(0)...)
 	}
 	body = append(body, c.Cat(c.LocalGet(lA), c.LocalGet(lB), c.B(0x85))...)
+	p.Bin = assemble(p, g, body)
+	p.Args = []uint64{0, 3, uint64(rng.Intn(64)), 13, 5, 13, uint64(rng.U64() & 0xffffffff)}
+	return p
+}
+
+// fixedProg: the bare store / grow / store / load shape (how: 0 memory.grow, 1 via a callee, 2 via the host) on a memory with
+// min 1 and a declared max above it, so that capacity-from-max reserves more than the initial size.
+func fixedProg(rng *c.Rng, id, how int, max uint32, addr uint32) *Prog {
+	g := &gen{rng: rng, shape: map[string]int{}, trap: true}
+	g.shape[sgsNames[how]]++
+	g.shape["fixed"]++
+	p := &Prog{ID: id, Min: 1, HasMax: true, Max: max, Limit: 8, Shape: g.shape}
+	body := c.Cat(c.I64Const(0), c.LocalSet(lB),
+		sgs(addr, how, 1, c.Cat(c.LocalGet(lN), c.B(0xad), c.I64Const(42), c.B(0x7c)), c.Cat(c.LocalGet(lN), c.B(0xad), c.I64Const(99), c.B(0x7c))),
+		c.LocalGet(lB))
+	p.Bin = assemble(p, g, body)
+	p.Args = []uint64{0, 1, 2, 3, 4, 5, 6, 7}
+	return p
+}
+
+// assemble builds the module around the body of run.
+func assemble(p *Prog, g *gen, body []byte) []byte {
+	rng, id := g.rng, p.ID
+	m := &c.Mod{}
+	m.Types = [][]byte{c.FT(c.B(c.I64), c.B(c.I64)), c.FT(c.B(c.I64, c.I64), c.B(c.I64)), c.FT(c.B(c.I32), c.B(c.I64)), c.FT(nil, nil), c.FT(c.B(c.I32), c.B(c.I32))}
+	m.Imports = [][]byte{c.ImportFunc("env", "log", 0), c.ImportFunc("env", "hgrow", 4)}
+	m.Funcs = [][]byte{c.U32(1), c.U32(2), c.U32(3), c.U32(4), c.U32(2)}
+	var mx *uint32
+	if p.HasMax {
+		mx = &p.Max
+	}
+	m.Mems = [][]byte{c.MemLimits(p.Min, mx)}
+	m.Globals = [][]byte{c.Cat(c.B(c.I64, 1), c.I64Const(int64(rng.U64())), c.B(0x0b))}
+	m.Exports = [][]byte{c.Export("run", 0, fRun), c.Export("spin", 0, fSpin), c.Export("peek", 0, fPeek), c.Export("mem", 2, 0), c.Export("g0", 3, 0)}
+	// helper(x, y) = ((x op1 y) op2 k) op3 x
+	helper := c.Code(nil, c.LocalGet(0), c.LocalGet(1), c.B(arithOps[rng.Intn(len(arithOps))]), g.konst(), c.B(arithOps[rng.Intn(len(arithOps))]),
+		c.LocalGet(0), c.B(arithOps[rng.Intn(len(arithOps))]))
 	run := c.Code([]byte{c.I64, c.I64, c.I32, c.I32}, body)
 	spin := c.Code(nil, c.B(0x03, 0x40, 0x0c, 0, 0x0b))
-	m.Codes = [][]byte{helper, run, spin}
+	grower := c.Code(nil, c.LocalGet(0), c.B(0x40, 0))
+	peek := c.Code(nil, c.LocalGet(0), c.B(0x29), c.MemArg(3, 0))
+	m.Codes = [][]byte{helper, run, spin, grower, peek}
 	m.Datas = [][]byte{c.Cat(c.B(0), c.I32Const(16), c.B(0x0b), c.U32(8), c.B(1, 2, 3, 4, 5, 6, 7, byte(id)))}
 	// custom sections: a name section and an opaque one
 	names := c.Cat(c.Name("name"),
 		c.B(0), c.U32(uint32(len(c.Name(fmt.Sprintf("prog%d", id))))), c.Name(fmt.Sprintf("prog%d", id)),
 		func() []byte {
-			v := c.Vec(c.Cat(c.U32(1), c.Name("helper")), c.Cat(c.U32(2), c.Name("run")), c.Cat(c.U32(3), c.Name("spin")))
+			v := c.Vec(c.Cat(c.U32(fHelper), c.Name("helper")), c.Cat(c.U32(fRun), c.Name("run")), c.Cat(c.U32(fSpin), c.Name("spin")))
 			return c.Cat(c.B(1), c.U32(uint32(len(v))), v)
 		}())
 	m.Custom = [][]byte{names, c.Cat(c.Name("verif.meta"), c.B(byte(id), 0xde, 0xad, 0xbe, 0xef))}
-	p.Bin = m.Bytes()
-	p.Args = []uint64{0, 3, uint64(rng.Intn(64)), 13, 5, 13, uint64(rng.U64() & 0xffffffff)}
-	return p
+	return m.Bytes()
 }
 
 // ---------------------------------------------------------------- configuration lattice
@@ -215,6 +283,7 @@ type Cfg struct {
 	Cache       string `json:"cache"` // none mem dircold dirwarm memshared-ab memshared-ba dirshared-ab dirshared-ba
 	CapMax      bool   `json:"capmax"`
 	Alloc       bool   `json:"alloc"`
+	Moving      bool   `json:"moving"` // with Alloc: Reallocate returns a fresh buffer whenever the memory grows
 	Debug       bool   `json:"debug"`
 	Custom      bool   `json:"custom"`
 	Listener    bool   `json:"listener"`
@@ -222,6 +291,16 @@ type Cfg struct {
 }
 
 var cacheModes = []string{"none", "mem", "dircold", "dirwarm", "memshared-ab", "memshared-ba", "dirshared-ab", "dirshared-ba"}
+
+func (cf Cfg) allocLevel() int {
+	if !cf.Alloc {
+		return 0
+	}
+	if cf.Moving {
+		return 2
+	}
+	return 1
+}
 
 func (cf Cfg) vec() [7]int {
 	b := func(x bool) int {
@@ -236,17 +315,18 @@ func (cf Cfg) vec() [7]int {
 			ci = i
 		}
 	}
-	return [7]int{ci, b(cf.CapMax), b(cf.Alloc), b(cf.Debug), b(cf.Custom), b(cf.Listener), b(cf.CloseOnDone)}
+	return [7]int{ci, b(cf.CapMax), cf.allocLevel(), b(cf.Debug), b(cf.Custom), b(cf.Listener), b(cf.CloseOnDone)}
 }
 
 func randCfg(rng *c.Rng) Cfg {
-	return Cfg{cacheModes[rng.Intn(len(cacheModes))], rng.Bool(), rng.Bool(), rng.Bool(), rng.Bool(), rng.Bool(), rng.Bool()}
+	al := rng.Intn(3)
+	return Cfg{cacheModes[rng.Intn(len(cacheModes))], rng.Bool(), al > 0, al == 2, rng.Bool(), rng.Bool(), rng.Bool(), rng.Bool()}
 }
 
 // lattice returns rows covering every pair of factor values (greedy), padded with random rows.
 func lattice(rng *c.Rng, rows int) []Cfg {
 	type pair struct{ f1, v1, f2, v2 int }
-	levels := [7]int{len(cacheModes), 2, 2, 2, 2, 2, 2}
+	levels := [7]int{len(cacheModes), 2, 3, 2, 2, 2, 2}
 	need := map[pair]bool{}
 	for f1 := 0; f1 < 7; f1++ {
 		for f2 := f1 + 1; f2 < 7; f2++ {
@@ -301,7 +381,8 @@ func other(rng *c.Rng, cf Cfg) Cfg {
 			o.CapMax = !o.CapMax
 		}
 		if rng.Bool() {
-			o.Alloc = !o.Alloc
+			al := (o.allocLevel() + 1 + rng.Intn(2)) % 3
+			o.Alloc, o.Moving = al > 0, al == 2
 		}
 		if rng.Bool() {
 			o.Debug = !o.Debug
@@ -363,9 +444,33 @@ var allocator = experimental.MemoryAllocatorFunc(func(cap, max uint64) experimen
 	return &sliceMem{buf: make([]byte, 0, max)}
 })
 
+// movingMem is a valid LinearMemory for non-shared memories: every Reallocate that grows hands out a fresh buffer
+// holding a copy of the contents (the old buffer stays reachable so that a stale write cannot crash the process).
+type movingMem struct {
+	buf  []byte
+	kept [][]byte
+}
+
+func (m *movingMem) Reallocate(size uint64) []byte {
+	if size <= uint64(len(m.buf)) {
+		m.buf = m.buf[:size]
+		return m.buf
+	}
+	nb := make([]byte, size)
+	copy(nb, m.buf)
+	m.kept = append(m.kept, m.buf)
+	m.buf = nb
+	return nb
+}
+func (m *movingMem) Free() {}
+
+var movingAllocator = experimental.MemoryAllocatorFunc(func(cap, max uint64) experimental.LinearMemory { return &movingMem{} })
+
 type Trace struct {
 	Results [][]any  `json:"results"`
 	Host    []uint64 `json:"host"`
+	Peeks   [][]any  `json:"peeks"`     // after every call: peek(a) for the store/grow/store addresses (a separate guest call)
+	HostRd  [][]any  `json:"hostreads"` // after every call: api.Memory.ReadUint64Le at the same addresses, and the page count
 	Pages   uint32   `json:"pages"`
 	MemSum  string   `json:"memsum"`
 	G0      uint64   `json:"g0"`
@@ -431,7 +536,15 @@ func (x *rt) exec(ctx context.Context, p *Prog, e Exec) (out Exec) {
 		WithGoFunction(api.GoFunc(func(_ context.Context, stack []uint64) {
 			sk.host = append(sk.host, stack[0])
 			stack[0] = stack[0]*3 + uint64(len(sk.host))
-		}), []api.ValueType{api.ValueTypeI64}, []api.ValueType{api.ValueTypeI64}).Export("log").Instantiate(ctx)
+		}), []api.ValueType{api.ValueTypeI64}, []api.ValueType{api.ValueTypeI64}).Export("log").
+		NewFunctionBuilder().
+		WithGoModuleFunction(api.GoModuleFunc(func(_ context.Context, m api.Module, stack []uint64) {
+			prev, ok := m.Memory().Grow(uint32(stack[0]))
+			if !ok {
+				prev = 0xffffffff
+			}
+			stack[0] = uint64(prev)
+		}), []api.ValueType{api.ValueTypeI32}, []api.ValueType{api.ValueTypeI32}).Export("hgrow").Instantiate(ctx)
 	if err != nil {
 		out.Err = "host: " + err.Error()
 		return
@@ -447,7 +560,11 @@ func (x *rt) exec(ctx context.Context, p *Prog, e Exec) (out Exec) {
 	}
 	ictx := cctx
 	if cf.Alloc {
-		ictx = experimental.WithMemoryAllocator(ictx, allocator)
+		if cf.Moving {
+			ictx = experimental.WithMemoryAllocator(ictx, movingAllocator)
+		} else {
+			ictx = experimental.WithMemoryAllocator(ictx, allocator)
+		}
 	}
 	mod, err := x.r.InstantiateModule(ictx, compiled, wazero.NewModuleConfig().WithName(""))
 	if err != nil {
@@ -457,15 +574,38 @@ func (x *rt) exec(ctx context.Context, p *Prog, e Exec) (out Exec) {
 	base, cancel := context.WithCancel(context.WithValue(ctx, sinkKey{}, sk))
 	defer cancel() // close-on-context-done is armed with a live Done channel that never fires during the trace
 	tr := &Trace{}
-	run := mod.ExportedFunction("run")
+	run, peek := mod.ExportedFunction("run"), mod.ExportedFunction("peek")
+	var keep [][]byte // views of earlier buffers stay reachable: a stale write then lands in live memory instead of freed memory
 	for _, a := range p.Args {
+		if v, ok := mod.Memory().Read(0, 8); ok {
+			keep = append(keep, v)
+		}
 		res, err := run.Call(base, a)
 		if err != nil {
 			tr.Results = append(tr.Results, []any{"trap", trapClass(err)})
 		} else {
 			tr.Results = append(tr.Results, []any{"ok", res[0]})
 		}
+		var pk, hr []any
+		for _, ad := range sgsAddrs {
+			if r, err := peek.Call(base, uint64(ad)); err != nil {
+				pk = append(pk, trapClass(err))
+			} else {
+				pk = append(pk, r[0])
+			}
+			v, ok := mod.Memory().ReadUint64Le(ad)
+			if !ok {
+				hr = append(hr, "fail")
+			} else {
+				hr = append(hr, v)
+			}
+		}
+		pg, _ := mod.Memory().Grow(0)
+		hr = append(hr, pg)
+		tr.Peeks = append(tr.Peeks, pk)
+		tr.HostRd = append(tr.HostRd, hr)
 	}
+	_ = keep
 	tr.Host = sk.host
 	mem := mod.Memory()
 	tr.Pages, _ = mem.Grow(0)
@@ -493,7 +633,7 @@ func (x *rt) exec(ctx context.Context, p *Prog, e Exec) (out Exec) {
 			} else {
 				out.Spin = "returned"
 			}
-		case <-time.After(4 * time.Second):
+		case <-time.After(25 * time.Second): // generous: on a starved machine both timers may become due together
 			out.Spin = "hung"
 		}
 	}
@@ -699,7 +839,7 @@ func main() {
 	}
 
 	lat := lattice(rng, *rows)
-	out.Emit(map[string]any{"t": "lattice", "rows": lat})
+	var fixedRows [][2]Cfg
 	ref := Cfg{Cache: "none"}
 	type job struct {
 		p      *Prog
@@ -709,13 +849,40 @@ func main() {
 		oth    Cfg
 	}
 	var jobs []job
+	// fixed rows: a cache shared in memory and on disk between two live runtimes that differ ONLY in capacity-from-max, in both
+	// orders of compilation; and a moving allocator combined with capacity-from-max (generated code must not depend on either)
+	for _, cm := range []string{"memshared-ab", "memshared-ba", "dirshared-ab", "dirshared-ba"} {
+		for _, x := range []bool{true, false} {
+			fixedRows = append(fixedRows, [2]Cfg{{Cache: cm, CapMax: x, Debug: true}, {Cache: cm, CapMax: !x, Debug: true}})
+		}
+	}
+	for _, cm := range []string{"none", "mem", "dirwarm"} {
+		for _, capmax := range []bool{true, false} {
+			cf := Cfg{Cache: cm, CapMax: capmax, Alloc: true, Moving: true}
+			fixedRows = append(fixedRows, [2]Cfg{cf, cf})
+		}
+	}
+	out.Emit(map[string]any{"t": "lattice", "rows": lat, "fixed": fixedRows})
+	var progs []*Prog
+	nfix := 0
+	for how := 0; how < 3; how++ {
+		for _, v := range [][2]uint32{{4, 0}, {2, 4096}, {100, 65528}} {
+			progs = append(progs, fixedProg(rng, nfix, how, v[0], v[1]))
+			nfix++
+		}
+	}
 	for i := 0; i < *nprog; i++ {
-		p := genProg(rng, i)
+		progs = append(progs, genProg(rng, nfix+i))
+	}
+	for _, p := range progs {
 		out.Emit(map[string]any{"t": "prog", "prog": p.ID, "size": len(p.Bin), "min": p.Min, "hasmax": p.HasMax, "max": p.Max, "limit": p.Limit, "shape": p.Shape, "args": p.Args})
 		for _, eng := range []string{"interp", "compiler"} {
 			jobs = append(jobs, job{p, eng, -1, ref, ref})
 			for r, cf := range lat {
 				jobs = append(jobs, job{p, eng, r, cf, other(rng, cf)})
+			}
+			for r, fr := range fixedRows {
+				jobs = append(jobs, job{p, eng, len(lat) + r, fr[0], fr[1]})
 			}
 		}
 	}
